@@ -12,20 +12,27 @@ def progsOf (sink : String) : List (List Instr) :=
 def progOf (sink : String) : Rec → List Instr := sinkProg (progsOf sink)
 
 def sevMode (t k mode : Nat) : Nat :=
+  if mode = 8 then 2 else
   if mode ≤ 5 then mode else if mode = 6 then (5 * t + k) % 6 else (if t = 0 then 5 else k % 5)
 
 /-- record k of thread t: [t+1, k+1, sev+1, payload…, 0]; payload length varies with (t, k) -/
 def record (mode t k : Nat) : Rec :=
   [t + 1, k + 1, sevMode t k mode + 1] ++ List.replicate ((t * 7 + k * 3) % 9) (((t + k) % 200) + 1) ++ [0]
 
-def recsOf (mode n r : Nat) : Nat → List Rec := fun t => if t < n then (List.range r).map (record mode t) else []
+/-- mode 8: every statement's operand is a callable that logs a record of its own first — for the sink
+that is two records per statement, the inner one complete before the outer one starts -/
+def recCount (mode r : Nat) : Nat := if mode = 8 then 2 * r else r
+
+def recsOf (mode n r : Nat) : Nat → List Rec := fun t =>
+  if t < n then (List.range (recCount mode r)).map (record mode t) else []
 
 def splitZero : List Nat → List Nat → List (List Nat)
   | [], cur => if cur.isEmpty then [] else [cur.reverse]   -- an unterminated rest counts as a (torn) line
   | b :: bs, cur => if b = 0 then (cur.reverse ++ [0]) :: splitZero bs [] else splitZero bs (b :: cur)
 
 /-- judge an output stream: whole records only, each once, per-thread order -/
-def verdict (mode n r : Nat) (out : List Nat) (concurrent : Bool) : String :=
+def verdict (mode n r0 : Nat) (out : List Nat) (concurrent : Bool) : String :=
+  let r := recCount mode r0
   let lines := splitZero out []
   let expected := (List.range n).flatMap fun t => (List.range r).map (record mode t)
   let torn := (lines.filter fun l => !expected.contains l).length
@@ -86,7 +93,7 @@ def model (f : List String) : String :=
     match n.toNat?, r.toNat?, mode.toNat?, seed.toNat? with
     | some n, some r, some mode, some seed =>
       let prog := progOf sink
-      let (s, c) := simulate prog n (n * n * r * 60 + 2000) seed (init (recsOf mode n r)) false
+      let (s, c) := simulate prog n (n * n * recCount mode r * 60 + 2000) seed (init (recsOf mode n r)) false
       verdict mode n r s.out c
     | _, _, _, _ => "bad-op"
   | _ => "bad-op"
@@ -99,7 +106,7 @@ def judge (f : List String) (ans : String) : String :=
   | ["stress", _sink, n, r, mode, _seed, build] =>
     match n.toNat?, r.toNat? with
     | some n, some r =>
-      let want := "records=" ++ toString (n * r) ++ " concurrent=0 torn=0 lost=0 dup=0 order=1"
+      let want := "records=" ++ toString (n * recCount (mode.toNat?.getD 0) r) ++ " concurrent=0 torn=0 lost=0 dup=0 order=1"
       let feat := "\tstress-" ++ build ++ " threads" ++ toString n ++ " sevmode" ++ mode ++ (if n ≥ 2 then " nt" else "")
       if ans = want then "ok" ++ feat else "bad:" ++ ans ++ feat
     | _, _ => "bad-op"
